@@ -16,8 +16,8 @@ ID = "C11"
 CASES = {"quick": 4000, "thorough": 50000}
 FLOOR = {"quick": 3500, "thorough": 45000}
 FLOOR_COUNTERS = {
-    "quick": {"rejected_calls_in_the_history": 2000, "numpy_scalar_parameters": 500, "fits_judged": 3500, "replication_pairs": 700, "rejections_judged": 3000, "zero_weight_fits": 300, "estimators_with_a_past": 5000, "block_boundary_sizes": 80, "fits_through_fit_transform": 900, "configured_not_by_constructor": 1500, "non_default_containers": 1500},
-    "thorough": {"rejected_calls_in_the_history": 25000, "numpy_scalar_parameters": 6000, "fits_judged": 45000, "replication_pairs": 9000, "rejections_judged": 40000, "zero_weight_fits": 4000, "estimators_with_a_past": 60000, "block_boundary_sizes": 1000, "fits_through_fit_transform": 12000, "configured_not_by_constructor": 20000, "non_default_containers": 20000},
+    "quick": {"rejected_calls_in_the_history": 2000, "numpy_scalar_parameters": 500, "fits_judged": 3500, "replication_pairs": 700, "rejections_judged": 3000, "zero_weight_fits": 300, "estimators_with_a_past": 5000, "block_boundary_sizes": 60, "fits_through_fit_transform": 900, "configured_not_by_constructor": 1500, "non_default_containers": 1500},
+    "thorough": {"rejected_calls_in_the_history": 25000, "numpy_scalar_parameters": 6000, "fits_judged": 45000, "replication_pairs": 9000, "rejections_judged": 40000, "zero_weight_fits": 4000, "estimators_with_a_past": 60000, "block_boundary_sizes": 800, "fits_through_fit_transform": 12000, "configured_not_by_constructor": 20000, "non_default_containers": 20000},
 }
 RULE = (
     "case = X (n>=2, 1-10 columns, column scales 1e-3..1e3, offsets up to 1e3), the 8 with_mean/with_std/column_wise "
